@@ -16,7 +16,18 @@ type Clause struct {
 	Line int
 }
 
+// GhostAt: ghost assignment executed at a program point (ghost code).
+type GhostAt struct {
+	SelKind string // entry | call | return
+	Callee  string
+	Ord     int
+	Before  bool
+	Var     string
+	C       Clause
+}
+
 type AssertAt struct {
+	Assume bool // assume-at: an explicit, listed assumption (no obligation)
 	// Selector: "call <callee-substring> #k" or "return #k" or "store #k"
 	SelKind string // call | return | send
 	Callee  string
@@ -38,6 +49,7 @@ type Contract struct {
 	LoopInv    map[int][]Clause
 	LoopDec    map[int]Clause
 	AssertAts  []AssertAt
+	GhostAts   []GhostAt
 	Opts       map[string]string
 	Readonly   []string
 	Reads      []string // for pure: heap roots the result depends on; ["none"] = argument values only
@@ -87,7 +99,7 @@ func NewContractDB() *ContractDB {
 
 var clauseKeywords = map[string]bool{
 	"func": true, "extern": true, "spec": true, "axiom": true, "lemma": true,
-	"requires": true, "ensures": true, "modifies": true, "loop": true, "assert-at": true,
+	"requires": true, "ensures": true, "modifies": true, "loop": true, "assert-at": true, "assume-at": true, "ghost-at": true,
 	"pure": true, "opt": true, "readonly": true, "decreases": true, "induction": true, "uses": true,
 }
 
@@ -253,24 +265,24 @@ func (db *ContractDB) LoadContractFile(path, pkgPath string) error {
 			default:
 				return fmt.Errorf("%s:%d: expected invariant|decreases", path, rc.line)
 			}
-		case "assert-at":
+		case "assert-at", "assume-at", "ghost-at":
 			if cur == nil {
-				return fmt.Errorf("%s:%d: assert-at outside func", path, rc.line)
+				return fmt.Errorf("%s:%d: %s outside func", path, rc.line, kw)
 			}
-			// assert-at [before] call <callee> #k : expr   |  assert-at return #k : expr
+			// <kw> [before|after] call <callee> #k : expr | <kw> return #k : expr | ghost-at entry : g := e
 			idx := strings.Index(rest, " : ")
 			if idx < 0 {
-				return fmt.Errorf("%s:%d: assert-at needs ' : '", path, rc.line)
+				return fmt.Errorf("%s:%d: %s needs ' : '", path, rc.line, kw)
 			}
 			sel, ex := strings.Fields(rest[:idx]), rest[idx+3:]
-			aa := AssertAt{Before: true}
+			aa := AssertAt{Before: true, Assume: kw == "assume-at"}
 			for len(sel) > 0 {
 				switch {
 				case sel[0] == "before":
 					aa.Before = true
 				case sel[0] == "after":
 					aa.Before = false
-				case sel[0] == "call" || sel[0] == "return" || sel[0] == "send":
+				case sel[0] == "call" || sel[0] == "return" || sel[0] == "send" || sel[0] == "entry":
 					aa.SelKind = sel[0]
 				case strings.HasPrefix(sel[0], "#"):
 					aa.Ord, _ = strconv.Atoi(sel[0][1:])
@@ -278,6 +290,19 @@ func (db *ContractDB) LoadContractFile(path, pkgPath string) error {
 					aa.Callee = sel[0]
 				}
 				sel = sel[1:]
+			}
+			if kw == "ghost-at" {
+				k := strings.Index(ex, ":=")
+				if k < 0 {
+					return fmt.Errorf("%s:%d: ghost-at needs 'ghost_x := expr'", path, rc.line)
+				}
+				v := strings.TrimSpace(ex[:k])
+				c, err := mk(strings.TrimSpace(ex[k+2:]), rc.line)
+				if err != nil {
+					return err
+				}
+				cur.GhostAts = append(cur.GhostAts, GhostAt{SelKind: aa.SelKind, Callee: aa.Callee, Ord: aa.Ord, Before: aa.Before, Var: v, C: c})
+				break
 			}
 			c, err := mk(ex, rc.line)
 			if err != nil {
